@@ -198,6 +198,7 @@ fn run(args: &[String]) -> Result<(), String> {
     let t0 = std::time::Instant::now();
     match prop.as_str() {
         "C17" | "C20" if n == 72 => checks::large_probe::<72>(&prop, &o, &mut rep),
+        "C01" | "C17" | "C20" if n == 260 => checks::large_probe::<260>(&prop, &o, &mut rep),
         "C01" | "C02" | "C03" | "C11" | "C17" | "C20" => {
             with_n!(n, [checks::bfs_check], &prop, &o, &mut rep)
         }
@@ -313,6 +314,7 @@ fn replay(args: &[String]) -> Result<i32, String> {
         "C14" | "C17" if case.extra.starts_with("utf8") => with_n!(n, [io::replay_utf8], &case),
         "C17" if case.extra == "io-alloc" => with_n!(n, [io::replay_io], &case),
         "C17" | "C20" if n == 72 => checks::replay_bfs::<72>(&case),
+        "C01" | "C17" | "C20" if n == 260 => checks::replay_bfs::<260>(&case),
         "C01" | "C02" | "C03" | "C11" | "C17" | "C20" => with_n!(n, [checks::replay_bfs], &case),
         "C05" | "C06" | "C10" => with_n!(n, [faults::replay_fault], &case),
         "C13" => c13::replay_c13(&case),
